@@ -18,7 +18,7 @@ class BuildFailed(Exception):
 MF = dict(PHASE_REQ=1, GUARD_CANCEL=2, GUARD_REQ=4, PAYLOAD=8, PAYLOAD2=16, REPORT=32, REPORT_OTHER=64, PLAN_EDIT=128,
           LIFE_EDIT=256, GUARD_REPORT=512, INJ_DECIDE=1024, COMPOSITE=2048, LOG_TOGGLE=4096)
 OG = dict(CORE=1, REACT=2, QUERY=4, PAYLOAD=8, MANUAL=16, REPLAY=32, SERIAL=64, COPY=128, DESTROY=256, LOG=512, PLAN=1024,
-          REPORT=2048, PAYLOAD2=4096, PLAN_REMOVE=8192, IMM=16384)
+          REPORT=2048, PAYLOAD2=4096, PLAN_REMOVE=8192, IMM=16384, WITHDRAW=32768)
 def mf(*names): return sum(MF[n] for n in names)
 def og(*names): return sum(OG[n] for n in names)
 
